@@ -4,10 +4,10 @@ EXTENDS Denial
 NoCollide   == <<>>
 \* "a.a" does not exist in zone flat; its hash is forced onto that of "a" (exists, type A)
 CollideFlat == << <<"a", "a">>, <<"a">> >>
-ZonesD2     == {"single", "flat", "wild", "ent", "deleg", "dname", "entwild", "optout"}
+ZonesD2     == {"single", "flat", "wild", "wildtypes", "ent", "deleg", "dname", "entwild", "optout"}
 ZonesD3     == ZonesD2 \cup {"deep", "deepcut", "deepopt", "deepent"}
-ZonesCache  == {"flat", "wild", "ent", "deleg", "dname", "optout"}
-ZonesCacheQ == {"wild", "deleg"}
+ZonesCache  == {"flat", "wild", "wildtypes", "ent", "deleg", "dname", "optout"}
+ZonesCacheQ == {"wild", "wildtypes", "deleg"}
 ZonesCache3 == ZonesD3
 NoPol       == {}
 AllPol      == {"sibling", "child", "param"}
